@@ -146,30 +146,40 @@ func c06HandlerArgs(c *kit.Ctx, m *storeModel, r1 *kit.Rule, walkers []*walker) 
 		if f.Body == nil || msgParam(f) == nil {
 			continue
 		}
-		info := f.Info()
-		var wcall *ast.CallExpr
-		var w *pointWriter
-		for _, call := range f.AllCalls(false) {
-			if x := m.writerOf(f, call); x != nil {
-				wcall, w = call, x
-			}
-		}
+		wcall, w := findWriterCall(m, f, 0)
 		if w == nil {
 			continue
 		}
 		o := r1.Ob(f, wcall, "walker arguments after "+w.Table+" writer", "walker receives (id, id[, parent], points) = the values decoded from the message and written to the store")
-		// the walker call
+		// h: the function that directly contains the writer call (the handler itself, or
+		// the helper it delegates the write to)
+		h := f
+		var hcall *ast.CallExpr // call of h in the handler, when h != f
+		if !directlyContains(f, wcall) {
+			h = nil
+			for _, call := range f.AllCalls(false) {
+				if cf := f.CalleeFunc(call); cf != nil && cf.PkgRel() == "store" && directlyContains(cf, wcall) {
+					h, hcall = cf, call
+				}
+			}
+			if h == nil {
+				o.Undecided("the writer call is more than one helper away from the handler")
+				continue
+			}
+			c.Analysed(h)
+		}
+		info := h.Info()
 		var up *ast.CallExpr
 		var wk *walker
-		for _, call := range f.AllCalls(false) {
+		for _, call := range h.AllCalls(false) {
 			for _, x := range walkers {
-				if f.CalleeFunc(call) == x.f {
+				if h.CalleeFunc(call) == x.f {
 					up, wk = call, x
 				}
 			}
 		}
 		if up == nil {
-			o.Violation("handler of the %s writer never calls an upstream walker", w.Table)
+			o.Violation("the function that writes %s (%s) never calls an upstream walker", w.Table, h.Name)
 			continue
 		}
 		wantVerbs := 2
@@ -180,7 +190,6 @@ func c06HandlerArgs(c *kit.Ctx, m *storeModel, r1 *kit.Rule, walkers []*walker) 
 			o.Violation("handler of the %s writer calls the walker publishing %d subject tokens (expected %d)", w.Table, wk.verbs, wantVerbs)
 			continue
 		}
-		// writer args are plain variables
 		var wobjs []types.Object
 		okArgs := true
 		for _, a := range wcall.Args {
@@ -194,55 +203,93 @@ func c06HandlerArgs(c *kit.Ctx, m *storeModel, r1 *kit.Rule, walkers []*walker) 
 			o.Undecided("writer/walker arguments are not plain variables")
 			continue
 		}
-		// expected walker args: [w0, w0, w1.., points]
 		exp := append([]types.Object{wobjs[0]}, wobjs...)
 		bad := ""
 		for i, a := range up.Args {
 			if kit.ObjOf(info, a) != exp[i] {
-				bad = "argument " + strconv.Itoa(i+1) + " of the walker call is `" + f.Str(a) + "`, expected `" + exp[i].Name() + "`"
+				bad = "argument " + strconv.Itoa(i+1) + " of the walker call is `" + h.Str(a) + "`, expected `" + exp[i].Name() + "`"
 				break
 			}
 		}
-		// all come from one decode call on the message and are never reassigned
-		if bad == "" {
-			for _, ob := range wobjs {
-				n := 0
-				fromDecode := false
-				ast.Inspect(f.Body, func(x ast.Node) bool {
-					switch as := x.(type) {
-					case *ast.AssignStmt:
-						for _, l := range as.Lhs {
-							if kit.ObjOf(info, l) == ob {
-								n++
-								if len(as.Rhs) == 1 {
-									if call, ok := ast.Unparen(as.Rhs[0]).(*ast.CallExpr); ok {
-										for _, a := range call.Args {
-											if kit.ObjOf(info, a) == msgParam(f) {
-												fromDecode = true
-											}
+		// provenance: each written value is decoded from the message exactly once and never
+		// reassigned; through a helper, the helper's parameters are never reassigned and
+		// the handler passes them the decoded values
+		assignedOnceFromMsg := func(fn *kit.Func, ob types.Object) (n int, fromDecode bool) {
+			finfo := fn.Info()
+			ast.Inspect(fn.Body, func(x ast.Node) bool {
+				switch as := x.(type) {
+				case *ast.AssignStmt:
+					for _, l := range as.Lhs {
+						if kit.ObjOf(finfo, l) == ob {
+							n++
+							if len(as.Rhs) == 1 {
+								if call, ok := ast.Unparen(as.Rhs[0]).(*ast.CallExpr); ok {
+									for _, a := range call.Args {
+										if kit.ObjOf(finfo, a) == types.Object(msgParam(f)) {
+											fromDecode = true
 										}
 									}
 								}
 							}
 						}
-					case *ast.IncDecStmt:
-						if kit.ObjOf(info, as.X) == ob {
-							n++
-						}
 					}
-					return true
-				})
-				if n != 1 || !fromDecode {
-					bad = "`" + ob.Name() + "` is not assigned exactly once from the decoded message"
+				case *ast.IncDecStmt:
+					if kit.ObjOf(finfo, as.X) == ob {
+						n++
+					}
+				}
+				return true
+			})
+			return
+		}
+		if bad == "" {
+			for _, ob := range wobjs {
+				if h == f {
+					if n, fromDecode := assignedOnceFromMsg(f, ob); n != 1 || !fromDecode {
+						bad = "`" + ob.Name() + "` is not assigned exactly once from the decoded message"
+					}
+					continue
+				}
+				// parameter of the helper: never reassigned there
+				pi := -1
+				for i, p := range h.Params() {
+					if types.Object(p) == ob {
+						pi = i
+					}
+				}
+				if pi < 0 || pi >= len(hcall.Args) {
+					bad = "`" + ob.Name() + "` in " + h.Name + " is not a parameter handed in by the handler"
+					continue
+				}
+				if n, _ := assignedOnceFromMsg(h, ob); n != 0 {
+					bad = "parameter `" + ob.Name() + "` is reassigned in " + h.Name
+					continue
+				}
+				ho := kit.ObjOf(f.Info(), hcall.Args[pi])
+				if ho == nil {
+					bad = "the handler passes `" + f.Str(hcall.Args[pi]) + "` to " + h.Name + ", not a decoded variable"
+					continue
+				}
+				if n, fromDecode := assignedOnceFromMsg(f, ho); n != 1 || !fromDecode {
+					bad = "`" + ho.Name() + "` is not assigned exactly once from the decoded message"
 				}
 			}
 		}
 		if bad != "" {
 			o.Violation("%s", bad)
 		} else {
-			o.OK("%s(%s)", wk.f.Name, f.Str(up))
+			o.OK("%s(%s)", wk.f.Name, h.Str(up))
 		}
 	}
+}
+
+func directlyContains(f *kit.Func, target *ast.CallExpr) bool {
+	for _, call := range f.AllCalls(false) {
+		if call == target {
+			return true
+		}
+	}
+	return false
 }
 
 func c06WalkerShape(c *kit.Ctx, m *storeModel, r2 *kit.Rule, w *walker, upf *kit.Func) {
